@@ -404,6 +404,15 @@ func check(prop, tier string, seed int64, scratch string, t0 time.Time) int {
 			violations += int(agg.FailCounts[k])
 			violationLines = append(violationLines, fmt.Sprintf("VIOLATION property=%s replay=%s", prop, path))
 			fmt.Fprintf(os.Stderr, "violation: classes=%v fingerprint=%s count=%d\n  input=%.600s\n  expected=%.600s\n  observed=%.600s\n", f.Classes, f.Fingerprint, agg.FailCounts[k], f.Input, f.Expected, f.Observed)
+			if len(fs) > 1 {
+				var where []string
+				for i, g := range fs {
+					if i < 40 {
+						where = append(where, g.Shard)
+					}
+				}
+				fmt.Fprintf(os.Stderr, "  also in shards: %s\n", strings.Join(where, " "))
+			}
 			exit = 1
 		default:
 			fmt.Fprintf(os.Stderr, "verifcheck: INTERNAL ERROR: failure %s did not reproduce deterministically on replay (%d/5 reproduced, %d differed): %s\n  replay=%s\n", k, okN, badN, detail, path)
